@@ -125,7 +125,7 @@ theorem escMatch_appends_rest_of_path (ep pat sb rest : Bytes)
         | none => false
         | some r => globMatch (replacePctStar pat) (lower (sb ++ r)) == .yes
        else globMatch (replacePctStar pat) (lower sb) == .yes) := by
-  unfold escMatch; rw [h]
+  unfold escMatch; rw [h]; rfl
 
 example : escLoop 10 [47, 115, 112, 37, 50, 48, 97, 99, 101] [47, 115, 112, 37, 50, 48, 97, 99, 101, 120] [] =
     .built [47, 115, 112, 37, 50, 48, 97, 99, 101] [120] := by decide
